@@ -11,15 +11,15 @@ LMAX = {"quick": 3, "thorough": 5}
 SHARDS = {"quick": 8, "thorough": 14}
 NDOC = {"quick": 300, "thorough": 15000}
 EXHAUSTIVE = {"quick": True, "thorough": True}
-RULE = ("EXHAUSTIVE over all sequences of length <= L (L=3 quick, 5 thorough) over the 21-kind alphabet of "
+RULE = ("two focus alphabets (short-form disambiguation: 10 kinds; id./placeholder/roman pages: 12 kinds) enumerated to length 4 (quick) / 5 (thorough); EXHAUSTIVE over all sequences of length <= L (L=3 quick, 5 thorough) over the 21-kind alphabet of "
         "C06, every prefix of each re-resolved with the real resolve_citations and compared with the "
         "restriction of the full resolution (resources by == and hash, members by identity and order); plus "
-        "random sequences of length 4..9 over 41 kinds and all prefixes of lists extracted from generated "
+        "random sequences of length 4..9 over 43 kinds and all prefixes of lists extracted from generated "
         "documents; also: no non-full citation grouped under a resource whose first full member occurs later; "
         "non-trivial = (list, cut) pair with a non-empty prefix; distinct = distinct kind sequence / document")
 ASSUMPTIONS = ["exhaustive for the stated alphabet and bound only"]
-FLOORS = {"quick": {"sequences": R.n_sequences(3), "prefix_pairs": 20000, "extracted_lists": 400},
-          "thorough": {"sequences": R.n_sequences(5), "prefix_pairs": 15000000, "extracted_lists": 20000}}
+FLOORS = {"quick": {"sequences": R.n_sequences(3), "focus_sequences": R.n_focus_sequences(3), "prefix_pairs": 20000, "extracted_lists": 400},
+          "thorough": {"sequences": R.n_sequences(5), "focus_sequences": R.n_focus_sequences(5), "prefix_pairs": 15000000, "extracted_lists": 20000}}
 
 
 def plan(tier, seed):
@@ -59,6 +59,10 @@ def run_shard(spec, rec):
         rec.count("sequences")
         if len(combo) > 1:
             rec.nontrivial(combo)
+    for combo in R.focus_sequences(spec["lmax"], spec["i"], spec["nshards"]):
+        check_seq(R.instantiate(protos, combo), dict(sequence=list(combo)), rec, resolve_citations)
+        rec.count("focus_sequences")
+        rec.nontrivial(combo)
     rng = random.Random(spec["seed"])
     allk = list(protos)
     for _ in range(spec["ndoc"]):
